@@ -1693,6 +1693,17 @@ def run(ctx):
                                      f"{klass.__name__}.recurrence_probability({lag_}) = {val}: the "
                                      f"{lag_}-th diagonal has {dsum} recurrences out of {den}",
                                      dict(replay, lag=lag_, expected=dsum / den, observed=float(val)))
+                if nm == "diagline_dist" and tag != "crp" and 1 <= Rm.shape[0] <= 12 \
+                        and Rm.shape[0] == int(obj.N):
+                    # round 4: the method as it computes (twice the lines of the lower triangle),
+                    # on symmetric and asymmetric (local-rate) matrices, with the missing-value mask
+                    mvi = getattr(obj, "missing_value_indices", None) \
+                        if getattr(obj, "missing_values", False) else None
+                    mask = "none" if mvi is None else ",".join(str(int(b)) for b in mvi)
+                    reqs.append(f"dline {int(obj.N)} {mask} {enc_bmat(Rm)}")
+                    impl.append(",".join(str(int(v)) for v in val) or "-")
+                    ctx.count("diagline_dist:" + ("asymmetric" if not np.array_equal(Rm, Rm.T)
+                                                  else "symmetric") + (":mv" if mvi is not None else ""))
                 if nm == "twins" and tag != "crp":
                     md = a[0] if a else 7
                     Nn = Rm.shape[0]
